@@ -7,6 +7,13 @@
   * `C07_validate_only_metainfo_error`    validate raises MetainfoError and nothing else outside the
                                           class of the open finding D07f (numbers of any size:
                                           D07j is repaired in /repo 3420ff7, regression `example`s)
+  * `C07_validate_ok_world`               validate = ok with a content path ⇒ the OS sees every listed
+                                          path as a regular file of the listed size (root: file / dir)
+  * `C07_stat_answer_total`, `C07_fs_failure_invisible(_exports)`   the file system is an input:
+                                          for every answer of `os.stat` (kind+size, any errno,
+                                          embedded null) the per-file check gives a size or
+                                          MetainfoError, and `validate`/exports cannot tell one
+                                          failure from another
   * `C07_only_metainfo_error_{dump,infohash,magnet}_{full,partial,counterexample}`
   * `C07_ready_iff`, `C07_ready_false_iff`, `C07_convert_only_metainfo_error`,
     `C07_{dump,infohash}_error_from_validate`, `C07_magnet_error_from_infohash`
@@ -16,6 +23,7 @@
   (their exports raise MetainfoError since /repo 19d011f; checked on the implementation).
 -/
 import Torf.Lemmas.ExportSound
+import Torf.Lemmas.ValidateFs
 namespace Torf.C07
 open Torf Torf.Export Torf.Validate
 
@@ -96,7 +104,7 @@ theorem C07_validate_only_metainfo_error (urlOk : Bytes → Bool) (fs : FsOracle
 
 /-- non-vacuity: the valid witnesses and a metainfo that fails validation are inside the predicate -/
 example : outsideD07f noPath validWitness = true ∧ outsideD07f noPath multiWitness = true ∧
-    outsideD07f { hasPath := true, rootIsFile := true, rootSize := 5 } validWitness = true ∧
+    outsideD07f { hasPath := true, root := .file 5 } validWitness = true ∧
     outsideD07f noPath [(.str "info", .list [.int 1])] = true := by decide +kernel
 
 /-- The conversion half (`convert()` + `bencode.encode`, i.e. `dump(validate=False)`) raises the
@@ -175,10 +183,10 @@ def d07fPathWitness : Items :=
 
 /-- a content directory in which file 0 exists, is a regular file and has 5 bytes -/
 def dirOracle : FsOracle :=
-  { hasPath := true, rootIsDir := true, files := [{ exists_ := true, isFile := true, size := 5 }] }
+  { hasPath := true, root := .dir 60, fileStat := fun i => if i = 0 then .file 5 else .err .ENOENT }
 
 /-- a content path that is a 5-byte regular file -/
-def fileOracle : FsOracle := { hasPath := true, rootIsFile := true, rootSize := 5 }
+def fileOracle : FsOracle := { hasPath := true, root := .file 5 }
 
 /-- the exclusion of `C07_validate_only_metainfo_error` is necessary, both halves: on the
     witnesses of D07f `validate` raises something else than MetainfoError -/
@@ -217,6 +225,84 @@ example : dump (fun _ => false) noPath d07jWitness = .error .metainfo ∧
    eq_of_isMetainfo (by decide +kernel),
    (C07_ready_false_iff _ _ _).mpr (eq_of_isMetainfo (by decide +kernel)),
    eq_of_isMetainfo (by decide +kernel), eq_of_isMetainfo (by decide +kernel)⟩
+
+/-! #### the file system as an input (content path set) -/
+
+/-- **Every answer of the OS.**  `C07_validate_only_metainfo_error` and the `_partial` theorems
+    below quantify over `fs : FsOracle`, i.e. over every answer `os.stat` can give for the content
+    path and for each listed file: a regular file, a directory, a FIFO/socket/device of any size,
+    a failure with any errno (ENOENT, ENOTDIR, ELOOP, ENAMETOOLONG, EACCES, EIO, … or any other
+    number) or a path that never reaches the OS (ValueError: embedded null byte).  This theorem
+    says what one answer does to the per-file check `exists → isfile → real_size`: the size of a
+    regular file, MetainfoError for everything else — `real_size` never raises ReadError or
+    ValueError there and never walks a directory. -/
+theorem C07_stat_answer_total (st : Stat) :
+    (∃ n, st = .file n ∧ statSize st = .ok n) ∨
+    (st.isFile = false ∧ statSize st = .error .metainfo) :=
+  statSize_cases st
+
+/-- **The reason of a failed `stat` is invisible.**  In a world where `stat` of the content path
+    or of listed files fails — with whatever errno, or before the OS is asked — `validate()` does
+    exactly what it does in the world where those paths simply do not exist (`FsOracle.blur`
+    replaces every failure by ENOENT).  For every metainfo, with no hypothesis at all (also inside
+    D07f).  A rewrite of the cross-check that lets some errno through (`pathlib.Path.exists()`
+    re-raises everything but ENOENT/ENOTDIR/EBADF/ELOOP; a bare `os.stat`) falsifies this on the
+    code, and the correspondence check compares exactly these worlds. -/
+theorem C07_fs_failure_invisible (urlOk : Bytes → Bool) (fs : FsOracle) (md : Items) :
+    validate urlOk fs.blur md = validate urlOk fs md :=
+  validate_blur urlOk fs md
+
+/-- … and the exports and the readiness flag inherit it -/
+theorem C07_fs_failure_invisible_exports (urlOk : Bytes → Bool) (fs : FsOracle) (md : Items) :
+    dump urlOk fs.blur md = dump urlOk fs md ∧
+    infoBytes urlOk fs.blur md = infoBytes urlOk fs md ∧
+    magnet urlOk fs.blur md = magnet urlOk fs md ∧
+    isReady urlOk fs.blur md = isReady urlOk fs md := by
+  simp only [dump, infoBytes, magnet, isReady, validate_blur, and_self]
+
+/-- **What a successful validation with a content path has seen.**  If `validate()` succeeds while
+    `Torrent.path` is set, then — for every metainfo and every world — a single-file torrent's
+    content path is, for the OS, a regular file of exactly the listed size, and a multi-file
+    torrent's content path is a directory in which every listed path (joined as `validate()`
+    joins it) is a regular file of exactly the listed size (`FsAgrees`).  So no answer of the OS
+    other than "regular file of that size" lets a listed file through: not a directory, a FIFO,
+    a failure of any kind. -/
+theorem C07_validate_ok_world (urlOk : Bytes → Bool) (fs : FsOracle) (md : Items)
+    (h : validate urlOk fs md = .ok ()) (hp : fs.hasPath = true) : FsAgrees fs md :=
+  validate_ok_fs urlOk fs h hp
+
+/-- a multi-file torrent created from a directory with one 5-byte file `f` -/
+def dirWitness : Items :=
+  [(.str "info", .dict [(.str "name", .str "T"), (.str "piece length", .int 16384),
+     (.str "pieces", .bytes (List.replicate 20 120)),
+     (.str "files", .list [.dict [(.str "length", .int 5), (.str "path", .list [.str "f"])]])])]
+
+/-- the content directory in which `stat` of the listed file answers `st` -/
+def worldWith (st : Stat) : FsOracle := { hasPath := true, root := .dir 60, fileStat := fun _ => st }
+
+/-- non-vacuity / regression of the seeded change C07-3b: the listed file is a regular file of the
+    right size ⇒ ok; every other answer ⇒ MetainfoError (never the OSError itself), and
+    `is_ready` is `False`: name too long, search permission denied, I/O error, an errno nobody
+    has heard of, a link loop, a component that is a file, an embedded null byte, a directory, a
+    FIFO, a file of another size; a content path that is not a directory any more -/
+example : validate (fun _ => false) (worldWith (.file 5)) dirWitness = .ok () :=
+  isOk_unit (by decide +kernel)
+example : ∀ st ∈ [Stat.err .ENAMETOOLONG, .err .EACCES, .err .EIO, .err (.other 9999), .err .ELOOP,
+      .err .ENOTDIR, .err .ENOENT, .badPath, .dir 5, .other 5, .file 6],
+    isMetainfo (validate (fun _ => false) (worldWith st) dirWitness) = true ∧
+    isMetainfo (dump (fun _ => false) (worldWith st) dirWitness) = true ∧
+    isMetainfo (infoBytes (fun _ => false) (worldWith st) dirWitness) = true ∧
+    isMetainfo (magnet (fun _ => false) (worldWith st) dirWitness) = true := by decide +kernel
+example : isReady (fun _ => false) (worldWith (.err .ENAMETOOLONG)) dirWitness = .ok false :=
+  (C07_ready_false_iff _ _ _).mpr (eq_of_isMetainfo (by decide +kernel))
+example : ∀ st ∈ [Stat.err .EACCES, .err .ELOOP, .badPath, .file 5, .other 0],
+    isMetainfo (validate (fun _ => false) { worldWith (.file 5) with root := st } dirWitness) = true := by
+  decide +kernel
+/-- single-file: the content path must be a regular file of the listed size -/
+example : isOk (validate (fun _ => false) fileOracle validWitness) = true ∧
+    (∀ st ∈ [Stat.err .ENAMETOOLONG, .err .EACCES, .err .EIO, .badPath, .dir 5, .other 5, .file 6],
+      isMetainfo (validate (fun _ => false) { hasPath := true, root := st } validWitness) = true) := by
+  decide +kernel
 
 /-! #### dump -/
 
